@@ -164,7 +164,7 @@ func c13Build() {
 					pl := fmt.Sprintf("packet%d", pi)
 					// truncation
 					add(false, c13Case{Fault: "truncate", File: name, Off: p.Offset, Place: "boundary"})
-					for _, d := range []int{1, 8, 12, 24, 40, 63, 64} {
+					for _, d := range []int{1, 8, 12, 24, 40, 63, 64, 65, 66, 67, 68, 72} {
 						if p.Offset+d < len(b) {
 							add(false, c13Case{Fault: "truncate", File: name, Off: p.Offset + d, Place: "in-header+" + fmt.Sprint(d)})
 						}
